@@ -14,6 +14,7 @@ fn main() {
     install_panic_hook();
     let prop = args[1].to_uppercase();
     let guarded = |tier: Tier| -> i32 {
+        espada_verif::runner::start_watchdog(&prop, tier);
         match std::panic::catch_unwind(|| props::run(&prop, tier)) {
             Ok(c) => c,
             Err(_) => {
